@@ -1,5 +1,6 @@
 import RtenVerif.Lemmas.SimdLoop
 import RtenVerif.Lemmas.SimdFold
+import RtenVerif.Lemmas.SimdEmu
 
 /-!
 # C18 — SIMD instruction sets agree and stay within slice bounds
@@ -196,6 +197,53 @@ example : wRun ⟨10, 0, []⟩ [.vec 4, .vec 4, .vec 4] = none := by decide
 terminates; the fuel-bounded model stops, but not with the full coverage. -/
 example : touched (simdMap 0 3) ≠ List.range 3 := by decide
 
+
+
+/-! ## T1k — emulated masked load/store (AVX2 8/16-bit lanes, generic ISA) -/
+
+/-- **C18.T1k** `_mm256_movemask_epi8` modelled bit by bit: bit `i` of the movemask of a byte
+mask is byte `i`; for a 16-bit-lane mask the bit `2i+1` that avx2.rs tests is lane `i`. -/
+theorem c18_movemask_bit (m : List Bool) (i : Nat) :
+    (movemask8 m).testBit i = m.getD i false ∧
+    (movemask8 (bytesOf16 m)).testBit (i * 2 + 1) = m.getD i false :=
+  ⟨movemask8_testBit m i, by rw [movemask8_testBit, (bytesOf16_getD m i).1]⟩
+
+/-- **C18.T1l** the scalar fallback loop (any of the three encodings) dereferences exactly the
+addresses `off + i` with `m[i]` set — the same index set a hardware masked access of the chunk
+`⟨off, m⟩` touches — for every mask, not only `first_n_mask`. -/
+theorem c18_emulated_access_exact (k : EmuKind) (m : List Bool) (off : Nat) :
+    emuAccess m.length (emuBit k m) off = (Chunk.mk off m).indices := by
+  have : emuBit k m = fun i => m.getD i false := funext (emuBit_eq k m)
+  rw [this]
+  exact emuAccess_getD m off
+
+/-- With the tail mask `first_n_mask(t)` the emulated access stays inside `[off, off + t)`. -/
+theorem c18_emulated_tail_in_bounds (k : EmuKind) (v off t : Nat) :
+    emuAccess v (emuBit k (firstNMask v t)) off = List.range' off (min t v) := by
+  have h := c18_emulated_access_exact k (firstNMask v t) off
+  rw [firstNMask_length] at h
+  rw [h]
+  exact maskIdx_firstN v off t
+
+/-- **C18.T1m** emulated masked store: memory cell `a` afterwards holds lane `a - off` of the
+vector iff that lane's mask is set and `a` lies in the vector's window; every other cell —
+in particular everything outside `[off, off + lanes)` — is unchanged. -/
+theorem c18_emulated_store_exact {α : Type} (zero : α) (k : EmuKind) (m : List Bool) (off : Nat)
+    (xs : List α) (mem : Nat → α) (a : Nat) :
+    emuStore zero mem m.length (emuBit k m) off xs a =
+      if off ≤ a ∧ a < off + m.length ∧ m.getD (a - off) false = true
+      then xs.getD (a - off) zero else mem a := by
+  rw [emuStore_spec, emuBit_eq]
+
+/-- Emulated masked load: lane `i` is the memory cell iff the mask is set, else zero. -/
+theorem c18_emulated_load_lanes {α : Type} (zero : α) (k : EmuKind) (m : List Bool) (off : Nat)
+    (mem : Nat → α) (i : Nat) (hi : i < m.length) :
+    (emuLoad zero mem m.length (emuBit k m) off)[i]'(by simp [emuLoad, hi]) =
+      if m.getD i false = true then mem (off + i) else zero := by
+  simp [emuLoad, emuBit_eq]
+
+example : movemask8 (bytesOf16 [true, false, true]) = 0b110011 ∧
+    emuAccess 3 (emuBit .avx2x16 [true, false, true]) 10 = [10, 12] := by decide
 
 /-! ## T1h — fold skeletons: padding lanes never reach an accumulator -/
 
